@@ -485,6 +485,9 @@ func (g *c15Gen) objName(ss ast.Schemas, pkg string, wantStruct bool) string {
 			if g.r.chance(25) {
 				n = c15Variant(g.r, n)
 			}
+			if g.r.chance(6) {
+				n = g.nearMiss(n)
+			}
 			return n
 		}
 	}
@@ -492,6 +495,14 @@ func (g *c15Gen) objName(ss ast.Schemas, pkg string, wantStruct bool) string {
 		return pick(g.r, irObjNames)
 	}
 	return pick(g.r, []string{"Nope", "Zed", "missing"})
+}
+
+// near misses of a name: a proper prefix, or the name with something appended
+func (g *c15Gen) nearMiss(s string) string {
+	if len(s) > 1 && g.r.chance(50) {
+		return s[:1+g.r.intn(len(s)-1)]
+	}
+	return s + pick(g.r, []string{"x", "s", "_", "2"})
 }
 
 func (g *c15Gen) objRef(ss ast.Schemas, wantStruct bool) string {
@@ -515,6 +526,9 @@ func (g *c15Gen) fieldRef(ss ast.Schemas) string {
 				field = pick(g.r, o.Type.Struct.Fields).Name
 				if g.r.chance(25) {
 					field = c15Variant(g.r, field)
+				}
+				if g.r.chance(8) {
+					field = g.nearMiss(field)
 				}
 				break
 			}
